@@ -1508,7 +1508,7 @@ class Gen:
             return self.push(ins, ts + 1)
         if op == "binC":
             f = rng.choice(["add", "subtract", "multiply", "divide", "pow"] if not self.sem else ["add", "subtract", "multiply", "pow"])
-            if f == "pow" and r.data.dtype.kind == "b":
+            if f == "pow" and (r.data.dtype.kind == "b" or "bool" in (self.dt, self.dt2)):
                 f = "multiply"          # True ** 2 is int8 for an array and int64 for a 0-d array (NumPy's fast path for squares): no common reading
             c = rng.choice([2, 3, 4]) if f != "pow" else 2
             if f == "divide":
